@@ -66,7 +66,7 @@ def design(ck):
     quick = ck.tier == "quick"
     cfgs = ["MCBroadcast.cfg"] if quick else ["MCBroadcast.cfg", "MCBroadcast4.cfg", "MCBroadcast5narrow.cfg"]
     for cfg in cfgs:
-        r = vlib.tlc(SPECDIR, "MCBroadcast", cfg, workdir=os.path.join(ck.dir, "tlc-design-" + cfg[:-4]), timeout=300 if quick else 2400, workers=8)
+        r = vlib.tlc(SPECDIR, "MCBroadcast", cfg, workdir=os.path.join(ck.dir, "tlc-design-" + cfg[:-4]), timeout=900 if quick else 3000, workers=8)
         ck.require_tlc_ok(cfg, r)
         ck.add_tlc("design:" + cfg, r, note="every interleaving of requests (filter/append/publish as separate steps), death+restart at any point, "
                    "rebroadcasts, certificates (purge+trim), echoes; restarts and environment steps unbounded")
@@ -80,7 +80,7 @@ def deviations(ck):
     if not quick:
         devs.append(("MCassumeForeign.cfg", "Foreign = TRUE (another node signs with our identity: the property's assumption is necessary)"))
     for cfg, what in devs:
-        r = vlib.tlc(SPECDIR, "MCBroadcast", cfg, workdir=os.path.join(ck.dir, "tlc-dev-" + cfg[:-4]), timeout=300, workers=4)
+        r = vlib.tlc(SPECDIR, "MCBroadcast", cfg, workdir=os.path.join(ck.dir, "tlc-dev-" + cfg[:-4]), timeout=600, workers=4)
         if r.error or not r.violated:
             raise Inconclusive("non-vacuity: named deviation %s (%s) produced no counterexample (violated=%s error=%s)\n%s"
                                % (cfg, what, r.violated, r.error, r.out[-1500:]))
@@ -127,6 +127,11 @@ def run(ck):
     from concurrent.futures import ThreadPoolExecutor
     quick = ck.tier == "quick"
     rng = random.Random(ck.seed)
+    if os.environ.get("VERIF_C12_PARTS") == "f3":     # development / mutation demos: the end-to-end part alone
+        ck.cov["facts"] = f3_job(ck, [ck.seed, ck.seed + 7], 40)
+        ck.cov["distinct_nontrivial"] = ck.cov["traces_validated_against_impl"]
+        ck.cov["rule"] = "end-to-end part only (VERIF_C12_PARTS=f3)"
+        return
     pool = ThreadPoolExecutor(max_workers=6)
     f_design = pool.submit(design, ck)            # joined at the end: independent of everything below
     f_dev = pool.submit(deviations, ck)
